@@ -22,6 +22,17 @@ CanonView == <<blk, Len(frames), aborted, RootBag>>
 \* same states, slots kept (for cross-checking the canonical view against SYMMETRY-free counts)
 PlainView == <<blk, hnd, frames, aborted>>
 
+\* An action that leaves the specification's state unchanged (a refusal, a propagated panic) may still have
+\* touched hidden implementation state. `quiet` remembers, for one step, that the last action was such a
+\* no-op and which one; it is part of the VIEW, so the successors of a state are ALSO explored (and exported)
+\* with the no-op as the preceding step of the history. This gives path coverage of length two through
+\* self-loop edges, which plain edge coverage of the state graph does not.
+VARIABLE quiet
+NoOpTag == IF UNCHANGED <<blk, hnd, frames, aborted>> /\ (res'.panicked \/ res'.verdict = "no")
+           THEN <<res'.op, res'.panicked, res'.verdict>> ELSE <<>>
+MCSpec == Init /\ quiet = <<>> /\ [][NextLowest /\ quiet' = NoOpTag]_<<vars, quiet>>
+MCView == <<CanonView, quiet>>
+
 Emit == PrintT(<<"BEH", ToJson([h |-> hist', x |-> Proj(blk', hnd', res', aborted')])>>)
 
 =============================================================================
